@@ -116,9 +116,27 @@ class C01(Check):
                 if spec.pseudo:     # without a pseudogene a double deletion leaves no read in the locus (C19's subject)
                     yield (spec, build, (("del", None), ("del", None)), 100, 20, 0)
                 yield (spec, build, (("normal", "1.001"),) * 2, 250, 30, 0)
+        yield from self.shipped_states()
+
+    def shipped_states(self):
+        """Shipped small genes at their real coordinates: every pair of majors (first minor of each)."""
+        import itertools
+        genes = ("nat2", "tpmt") if self.tier == "quick" else ("nat2", "tpmt", "cyp2c19", "cyp3a5", "nudt15", "cyp2c9")
+        for name in genes:
+            gene = worlds.gene_of(("shipped", name), "hg19")
+            reps = [(M, sorted(a.minors)[0]) for M, a in gene.alleles.items() if a.cn_config == "1"]
+            pairs = list(itertools.combinations_with_replacement(reps, 2))
+            for i, pr in enumerate(pairs):
+                if self.tier == "quick" and i % max(1, len(pairs) // 6) != self.seed % max(1, len(pairs) // 6):
+                    continue
+                if self.tier == "thorough" and len(pairs) > 400 and i % (len(pairs) // 400 + 1):
+                    continue
+                yield (("shipped", name), "hg19", pr, 100, 20, 0)
 
     def successors(self, st):
         spec, build, comps, rl, dp, sh = st
+        if spec[0] == "shipped":
+            return
         w = worlds.world(spec)
         kinds = [k for k, _ in comps]
         if kinds == ["normal", "normal"]:
@@ -151,6 +169,8 @@ class C01(Check):
 
     def canon(self, st):
         spec, build, comps, rl, dp, sh = st
+        if spec[0] == "shipped":
+            return st
         head = tuple(sorted(c for c in comps if c[0] != "extra"))
         return (spec, build, head, tuple(sorted(c for c in comps if c[0] == "extra")), rl, dp, sh)
 
@@ -162,6 +182,8 @@ class C01(Check):
 
         spec, build, comps, rl, dp, sh = st
         repo.reset_debug_store()
+        if spec[0] == "shipped":
+            return self._eval_shipped(st)
         w = worlds.world(spec)
         gene = worlds.gene_of(spec, build)
         sim = simreads.Simulator(w, build)
@@ -264,4 +286,53 @@ class C01(Check):
                        note={"components": comps, "rl": rl, "depth": dp, "called": [s.get_minor_diplotype() for s in sols][:3]})
 
 
+def _eval_shipped(self, st):
+    from aldy.genotype import genotype
+    from aldy.common import AldyException
+
+    spec, build, pair, rl, dp, sh = st
+    gene = worlds.gene_of(spec, build)
+    gs = simreads.GeneSimulator(gene)
+    d = worlds.tmpdir()
+    ppath = os.path.join(d, f"c01sh_{spec[1]}_{build}.bam")
+    if not os.path.exists(ppath + ".bai"):
+        gs.write(ppath, gs.sample([[], []], rl, dp))
+    copies = []
+    for M, mi in pair:
+        a = gene.alleles[M]
+        copies.append({(m.pos, m.op) for m in a.func_muts} | {(m.pos, m.op) for m in a.minors[mi].neutral_muts})
+    spath = os.path.join(d, f"c01shs_{os.getpid()}.bam")
+    gs.write(spath, gs.sample([sorted(c) for c in copies], rl, dp))
+    try:
+        res = genotype(spec[1], spath, ppath, output_file=None, cn_region=gs.neutral_region(), genome=build)
+        sols = list(res.values())[0]
+        err = None
+    except AldyException as ex:
+        sols, err = [], str(ex)
+    v = []
+    where = f"{spec[1]} planted {[mi for _, mi in pair]}"
+    if err is not None or not sols:
+        return Outcome([("e2e-shipped/no-call", f"{where}: {err}")], key=("error",), nontrivial=True)
+    want_vars = collections.Counter(m for c in copies for m in c)
+    want_majors = sorted(M for M, _ in pair)
+    found = False
+    for s in sols:
+        gv = collections.Counter()
+        for a in s.solution:
+            al = gene.alleles[a.major]
+            gv.update(({(m.pos, m.op) for m in al.func_muts} | {(m.pos, m.op) for m in al.minors[a.minor].neutral_muts}
+                       | {(m.pos, m.op) for m in a.added}) - {(m.pos, m.op) for m in a.missing})
+        if sorted(a.major for a in s.solution) == want_majors:
+            found = True
+        if gv != want_vars:
+            extra, lost = sorted((gv - want_vars).elements()), sorted((want_vars - gv).elements())
+            kinds = sorted({("indel" if m[1][:3] in ("ins", "del") else "snv") for m in extra + lost})
+            v.append((f"e2e-shipped/variants/{'+'.join(kinds)}", f"{where}: {s.get_minor_diplotype()} adds {extra} loses {lost}"))
+    if not found:
+        v.append(("e2e-shipped/planted-majors-not-reported", f"{where}: reported {[s.get_major_diplotype() for s in sols]}"))
+    return Outcome(v, key=(spec[1], sols[0].get_major_diplotype()), nontrivial=True, counters={"shipped_samples": 1},
+                   note={"gene": spec[1], "planted": [mi for _, mi in pair], "called": [s.get_minor_diplotype() for s in sols][:2]})
+
+
+C01._eval_shipped = _eval_shipped
 CHECK = C01
